@@ -359,7 +359,7 @@ def h_recover_listing_fails(h: H):
 
 
 def _replay_recover(ob):
-    fallback = ob.get("verdict") == "undecided"
+    fallback = ob.get("verdict") in ("undecided", "scenario")
     return f"FALLBACK = {fallback!r}   # True: bounded stand-in (the known orphan scenario is then not part of the verdict)\n" + '''
 import sys, os, tempfile, shutil, json, time
 from datashard import create_table, load_table
